@@ -236,6 +236,10 @@ def watermark(ctx, drv):
             wm = rng.choice([0, max(s0 - 1, 0), s0, s0 + 1, 10**9])
             o = {'hashes': ['SHA1'], 'compress_watermark': wm, 'compress_format': rng.choice(['gz', 'bz2', 'lzma', 'xz']),
                  'force': rng.random() < 0.6, 'sort': rng.random() < 0.5}
+            if rng.random() < 0.25:
+                # the ebuild profile brings its own defaults (watermark 128): an explicit watermark - 0 included - stays in force
+                o['profile'] = 'ebuild'
+                o.pop('sort')
             if rng.random() < 0.5:
                 gen_tree.mutate_tree(pl, rng, root)
             texts = c03.all_texts(root)
